@@ -43,7 +43,7 @@ Print Assumptions C05_cpu_rows.
 
 (* the virtual CPU may be oversubscribed *)
 Definition sx3 : static :=
-  {| s_threads := [{| ti_tid := 7; ti_pid := 1; ti_loom := 0 |}; {| ti_tid := 8; ti_pid := 1; ti_loom := 0 |}];
+  {| s_threads := [{| ti_tid := 7; ti_pid := 1; ti_loom := 0; ti_appid := 1; ti_rank := -1 |}; {| ti_tid := 8; ti_pid := 1; ti_loom := 0; ti_appid := 1; ti_rank := -1 |}];
      s_cpus := [{| ci_virtual := false; ci_loom := 0; ci_index := 0 |}; {| ci_virtual := true; ci_loom := 0; ci_index := -1 |}];
      s_chans := []; s_lint := false |}.
 Example C05_ex_virtual :
